@@ -134,6 +134,9 @@ func (obj *SparseIntVector) SET(x *SparseIntVector) {
   }
 }
 func (obj *SparseIntVector) SLICE(i, j int) *SparseIntVector {
+  if i < 0 || j < i || j > obj.n {
+    panic("index out of bounds")
+  }
   r := nilSparseIntVector(j-i)
   for it := obj.indexIteratorFrom(i); it.Ok(); it.Next() {
     if it.Get() >= j {
